@@ -2,8 +2,8 @@ import PoxModel.Proofs.SwitchReq
 /-! # C13 — every switch request is answered once, with its transaction id, in order
 
 `rxMessage`/`run` (Model/SwitchReq.lean) are `SoftwareSwitchBase.rx_message` and its handlers; the handler tables, message
-classes, per-handler send summaries and constants the model assumes are compared here with what the translator reads
-from the source on every run (`Generated/SwitchDispatch.lean`).  All theorems hold for every switch state, every message
+classes and constants the model assumes are compared here with what the translator reads
+off the live switch object on every run (`Generated/SwitchDispatch.lean`).  All theorems hold for every switch state, every message
 body and every sequence (no bound).  Numbers in the statements are those of OpenFlow 1.0.0 `openflow.h`
 (enum ofp_error_type, ofp_bad_request_code, ofp_bad_action_code, ofp_flow_mod_failed_code, ofp_port_mod_failed_code,
 ofp_queue_op_failed_code, ofp_port, OFPQ_ALL).
@@ -25,9 +25,22 @@ theorem classes_agree :
     SwitchReq.msgClasses = (Generated.SwitchDispatch.msgClasses.filter (·.2.2.1)).map (fun c => (c.1, c.2.1)) ∧
     SwitchReq.statsRequestClasses = Generated.SwitchDispatch.statsRequestClasses := by decide
 
-/-- per handler: which library messages it constructs with which xid, which `send_error(type, code, ofp)` calls it makes,
-how often it calls `self.send` -/
-theorem summary_agrees : SwitchReq.handlerSummary = Generated.SwitchDispatch.handlerSummary := by decide
+/-- the controller-to-switch message types of OpenFlow 1.0 (`enum ofp_type`, §5.1): HELLO 0, ECHO_REQUEST 2, ECHO_REPLY 3,
+VENDOR 4, FEATURES_REQUEST 5, GET_CONFIG_REQUEST 7, SET_CONFIG 9, PACKET_OUT 13, FLOW_MOD 14, PORT_MOD 15,
+STATS_REQUEST 16, BARRIER_REQUEST 18, QUEUE_GET_CONFIG_REQUEST 20 -/
+def specRequestTypes : List Nat := [0, 2, 3, 4, 5, 7, 9, 13, 14, 15, 16, 18, 20]
+
+/-- a statement about the CODE's tables (as read off the live switch object on this run), independent of the model:
+every controller-to-switch message type of the standard has a handler and nothing else is dispatched; the statistics
+types DESC..QUEUE (0-5), the flow-mod commands ADD..DELETE_STRICT (0-4) and the actions OUTPUT..ENQUEUE (0-11) of the
+standard are exactly the keys of the other three tables (vendor statistics / vendor actions have no handler and are
+answered with an error). -/
+theorem requests_handled :
+    (∀ c ∈ specRequestTypes, (Generated.SwitchDispatch.dispatch.rx.lookup c).isSome = true) ∧
+    Generated.SwitchDispatch.dispatch.rx.map (·.1) = specRequestTypes ∧
+    Generated.SwitchDispatch.dispatch.stats.map (·.1) = [0, 1, 2, 3, 4, 5] ∧
+    Generated.SwitchDispatch.dispatch.flowMod.map (·.1) = [0, 1, 2, 3, 4] ∧
+    Generated.SwitchDispatch.dispatch.action.map (·.1) = [0, 1, 2, 3, 4, 5, 6, 7, 8, 9, 10, 11] := by decide
 
 open Generated.SwitchDispatch in
 /-- the library's constants used by the model have the values of the standard -/
